@@ -14,7 +14,8 @@ META = {
               'order i*cdim_y*cdim_z + j*cdim_z + k that get_cid computes, and add_parts bins a position by floor((x - anchor)/width*cdim) per axis — the same partition',
         'R2': 'pruning bounds: a cell is skipped only if its clamped distance (componentwise clamp of the query into the cell) exceeds the current k-th best; the search stops only when '
               '(distance to the own cell\'s nearest face + r * min over axes of the cell width)^2 exceeds the k-th best; the heap is a max-heap on the squared distance and results are '
-              'popped into positions k-1..0; the particle itself never reaches the heap and nothing is searched for k == 0',
+              'popped into positions k-1..0; the particle itself never reaches the heap and nothing is searched for k == 0; no decision of the search, the ring enumeration, '
+              'the recursion, the growth loops or the bucketing consults anything but the search state (DECISION_INPUTS), and growth / bucketing loops run to the end',
         'R4': 'sphere through k boundary points: from_boundary_points dispatches k = 2, 3, 4 to the two/three/four-point constructors with the points in order (C19.R6-R8: they pass through '
               'their points), returns the point itself with radius 0 for k = 1 and the empty sphere for k = 0',
         'R5': 'Welzl recursion shape: base case (no points left or four boundary points) returns the sphere through the boundary; otherwise one point is taken off, the rest is solved, '
@@ -311,6 +312,8 @@ def r2(ctx, F, rule, sfx):
     ip.call_body(kb, [ip.ref_to(sp), RF.sym('k')])
     ctx.evaluations += ip.evaluations
     w = where(kb)
+    fc = foreign_conditions(ip, DECISION_INPUTS)
+    ctx.check(rule, 'search-decisions-depend-on-the-search-state-only' + sfx, not fc, fc[:3] or 'every condition in knn reads the heap, the distances, the grid or an iterator', 'no decision of the search consults anything else', w, key_extra='foreign')
     # find comparisons against peek().d_2
     peeks = [e for e in ip.events if e.callee and e.callee.endswith('BinaryHeap::<T, A>::peek') and e.body is kb]
     mds = [e for e in ip.events if e.callee and strip_generics(e.callee).endswith('Cell::min_distance_squared') and e.body is kb]
@@ -546,6 +549,10 @@ def r2(ctx, F, rule, sfx):
         ctx.incomplete(rule, 'heap-keeps-largest-on-top' + sfx, 'Ord impls of the heap entry: %d' % len(cmpb), w)
 
 
+# what the decisions of the grid search and of the sphere solvers may read (names of uninterpreted calls inside conditions)
+DECISION_INPUTS = '^(call|mut):(<std::iter::Rev<I> as std::iter::Iterator>::next|<std::slice::Iter<.a, T> as std::iter::Iterator>::next|<std::vec::IntoIter<T, A> as std::iter::Iterator>::next|<std::iter::Enumerate<I> as std::iter::Iterator>::next|std::iter::range::<impl std::iter::Iterator for std::ops::Range(Inclusive)?<A>>::next|std::collections::BinaryHeap::(len|peek|pop)|space::|part::|core::slice::<impl \\[T\\]>::iter|std::iter::Iterator::(enumerate|rev|map|collect)|std::vec::Vec::(is_empty|pop|len)|std::slice::<impl \\[T\\]>::to_vec|bounding_sphere::|geometry::Sphere::|<std::collections::HashSet|std::ops::RangeInclusive|<glam::)'
+
+
 def flat_min(x, terms, name='min'):
     at = I.single_atom(x) if isinstance(x, RF) else None
     if at is not None and at.kind == 'app' and at.name == name:
@@ -589,6 +596,8 @@ def r3(ctx, F, rule, sfx):
     ip.call_body(rb, [ip.ref_to(sp), RF.sym('cid'), RF.sym('r')])
     ctx.evaluations += ip.evaluations
     w = where(rb)
+    fc = foreign_conditions(ip, DECISION_INPUTS)
+    ctx.check(rule, 'ring-decisions-depend-on-offsets-and-grid-only' + sfx, not fc, fc[:3] or 'every condition in get_r_ring reads the offsets or the grid', 'no decision of the ring enumeration consults anything else', w, key_extra='foreign')
     ev = [e for e in ip.events if e.callee == g['path']]
     nexts = next_events(ip, rb)
     # the offsets: loop counters (nested `for`) or elements of ranges combined by flat_map / map / filter / filter_map
@@ -694,6 +703,8 @@ def r5(ctx, F, rule, sfx):
     v, _ = ip.call_body(wb, [ip.ref_to(pts, mut=True), ip.ref_to(bnd, mut=True)])
     ctx.evaluations += ip.evaluations
     w = where(wb)
+    fc = foreign_conditions(ip, DECISION_INPUTS)
+    ctx.check(rule, 'recursion-decisions-depend-on-points-and-spheres-only' + sfx, not fc, fc[:3] or 'every condition reads the two vectors or a sphere', 'no decision of the recursion consults anything else', w, key_extra='foreign')
     ev = [e for e in ip.events if e.body is wb]
     name = lambda e: e.callee.rsplit('::', 1)[-1]
     EMPTY = 'b:call:std::vec::Vec::is_empty(pts)'
@@ -762,6 +773,9 @@ def r6(ctx, F, rule, sfx):
     v, _ = ip.call_body(eb, [I.Sym(nf.sym_atom('points'), '&[glam::DVec3]')])
     ctx.evaluations += ip.evaluations
     w = where(eb)
+    fc = foreign_conditions(ip, DECISION_INPUTS)
+    ee = early_exits(ip, None, body=eb)
+    ctx.check(rule, 'growth-runs-over-all-inputs-unconditionally' + sfx, not fc and not ee, (fc[:2] + ee[:2]) or 'no foreign condition, no loop left with an item in hand', 'every input is looked at; no decision consults anything but the inputs and the sphere', w, key_extra='foreign')
     ext = [e for e in ip.events if e.body is eb and e.callee and e.callee.endswith('Sphere::extend')]
     ok = len(ext) == 1 and ext[0].in_loop
     detail = '%d extend call(s)' % len(ext)
@@ -787,6 +801,9 @@ def r6(ctx, F, rule, sfx):
     v, _ = ip.call_body(sb, [I.Sym(nf.sym_atom('spheres'), '&[geometry::Sphere]')])
     ctx.evaluations += ip.evaluations
     ws = where(sb)
+    fc = foreign_conditions(ip, DECISION_INPUTS)
+    ee = early_exits(ip, None, body=sb)
+    ctx.check(rule, 'spheres:growth-runs-over-all-inputs-unconditionally' + sfx, not fc and not ee, (fc[:2] + ee[:2]) or 'no foreign condition, no loop left with an item in hand', 'every sphere is looked at; no decision consults anything but the inputs and the bounding sphere', ws, key_extra='foreign-spheres')
     # the last loop of the function: its back-edge value of the bounding sphere
     loops = [L for L in ip.loops if L['body'] is sb and L['depth'] == 1]
     last = None
@@ -874,6 +891,9 @@ def r7(ctx, F, rule, sfx):
     ip.call_body(b, [spref, I.Sym(nf.sym_atom('positions'), '&[glam::DVec3]')])
     ctx.evaluations += ip.evaluations
     w = where(b)
+    fc = foreign_conditions(ip, DECISION_INPUTS)
+    ee = early_exits(ip, None, body=b)
+    ctx.check(rule, 'bucketing-runs-over-all-particles-unconditionally' + sfx, not fc and not ee, (fc[:2] + ee[:2]) or 'no foreign condition, no loop left with an item in hand', 'every particle is bucketed; no decision consults anything but the particles and the grid', w, key_extra='foreign')
     cid_name = 'call:' + strip_generics(cid_b['path'])
 
     def is_cid(v):
